@@ -35,6 +35,7 @@ var genFiles = []genFile{
 	{Name: "Selector"},
 	{Name: "SelectorParse"},
 	{Name: "Secretbox"},
+	{Name: "ParseTime", Imports: []string{"Facts"}},
 	{Name: "ChainTypes", Structs: true},
 	{Name: "ChainTime", Imports: []string{"ChainTypes"}, Prelude: "variable (now : Int)\n"},
 	{Name: "ChainProofs", Imports: []string{"ChainTypes", "Command"}},
@@ -61,6 +62,7 @@ var targets = []target{
 	{Dir: "pkg/policy/selector", Name: "resolveSliceIndices", Lean: "resolveSliceIndices", File: "Selector"},
 	{Dir: "pkg/policy/selector", Name: "tokenize", Lean: "tokenize", File: "SelectorParse", Fuel: []string{"str.length + 1"}},
 	{Dir: "pkg/meta/internal/crypto", Name: "validateKey", Lean: "validateKey", File: "Secretbox", Nilable: []string{"key"}},
+	{Dir: "token/internal/parse", Name: "OptionalTimestamp", Lean: "OptionalTimestamp", File: "ParseTime"},
 	{Dir: "token/delegation", Recv: "Token", Name: "IsValidAt", Lean: "Dlg_IsValidAt", File: "ChainTime"},
 	{Dir: "token/invocation", Recv: "Token", Name: "IsValidAt", Lean: "Inv_IsValidAt", File: "ChainTime"},
 	{Dir: "token/invocation", Recv: "Token", Name: "verifyProofs", Lean: "Inv_verifyProofs", File: "ChainProofs"},
@@ -194,6 +196,7 @@ type libCall struct {
 
 // libCalls: standard-library functions with their model. `lower` (strings.ToLower) stays a parameter.
 var libCalls = map[string]libCall{
+	"time.Unix":         {"$1", ty{"Int", "time.Time"}, nil},              // time.Unix(sec, 0): the instant, in seconds (the unit of every bound)
 	"time.Now":          {"now", ty{"Int", "time.Time"}, []string{"now"}}, // the instant of the check is a parameter
 	"strings.HasPrefix": {"(List.isPrefixOf $2 $1)", boolTy, nil},
 	"strings.HasSuffix": {"(List.isSuffixOf $2 $1)", boolTy, nil},
@@ -274,8 +277,10 @@ type constDef struct {
 // constTable: constants of other packages. math.MinInt / math.MaxInt are the 64-bit values (the
 // sentinel the selector parser stores for an open slice bound).
 var constTable = map[string]constDef{
-	"math.MinInt": {"(-9223372036854775808 : Int)", intTy},
-	"math.MaxInt": {"(9223372036854775807 : Int)", intTy},
+	"math.MinInt":     {"(-9223372036854775808 : Int)", intTy},
+	"limits.MaxInt53": {"Ucan.Facts.maxInt53", intTy}, // the regenerated constants (Gen/Facts.lean)
+	"limits.MinInt53": {"Ucan.Facts.minInt53", intTy},
+	"math.MaxInt":     {"(9223372036854775807 : Int)", intTy},
 }
 
 const prelude = `variable (lower : Bytes → Bytes) {D C S : Type} [DecidableEq D]
